@@ -75,6 +75,8 @@ def audit_one(d, tier, all_checks, seed=0):
 def main(argv):
     tier = 'quick'
     all_checks = False
+    seed = 0
+    outname = 'mutation_report.json'
     dirs = []
     i = 0
     while i < len(argv):
@@ -84,6 +86,12 @@ def main(argv):
             tier = argv[i]
         elif a == '--all-checks':
             all_checks = True
+        elif a == '--seed':
+            i += 1
+            seed = int(argv[i])
+        elif a == '--out':
+            i += 1
+            outname = argv[i]
         elif a == '--everything':
             dirs += sorted(glob.glob(os.path.join(VERIF, 'mutants', '*'))) + sorted(glob.glob(os.path.join(VERIF, 'mutants', 'controls', '*'))) \
                 + sorted(glob.glob(os.path.join(VERIF, 'seeded', '*')))
@@ -93,21 +101,22 @@ def main(argv):
     dirs = [d for d in dirs if os.path.exists(os.path.join(d, 'patch.diff'))]
     out = []
     for d in dirs:
-        r = audit_one(d, tier, all_checks)
+        r = audit_one(d, tier, all_checks, seed)
+        r['seed'] = seed
         out.append(r)
         print('%-55s breaks=%-5s tests=%-22s demo=%s/%s -> %s  %s' % (
             r['mutant'], r.get('breaks'), (r.get('unit_tests') or '')[:22], r.get('demo_exit_with_change', '-'), r.get('demo_exit_without_change', '-'),
             r.get('verdict', r.get('error')), {c: v['exit'] for c, v in r.get('checks', {}).items()} if len(r.get('checks', {})) <= 4 else
             {c: v['exit'] for c, v in r.get('checks', {}).items() if v['exit'] != 0}), flush=True)
     os.makedirs(os.path.join(VERIF, 'audit'), exist_ok=True)
-    path = os.path.join(VERIF, 'audit', 'mutation_report.json')
+    path = os.path.join(VERIF, 'audit', outname)
     old = []
     if os.path.exists(path):
         try:
             old = json.load(open(path))
         except Exception:
             old = []
-    keep = [o for o in old if o['mutant'] not in {r['mutant'] for r in out}]
+    keep = [o for o in old if o['mutant'] not in {r['mutant'] for r in out} and os.path.exists(os.path.join(VERIF, o['mutant'], 'patch.diff'))]
     json.dump(sorted(keep + out, key=lambda r: r['mutant']), open(path, 'w'), indent=1)
 
 
